@@ -21,6 +21,8 @@ def full_of(S, self, q):
 
 
 def integral(q):
+    if not isinstance(q, Num):
+        return float(q).is_integer()
     q = Num.lift(q)
     if q.is_int:
         return True
@@ -28,6 +30,8 @@ def integral(q):
 
 
 def eps_of(amount):
+    if not isinstance(amount, Num):
+        return 1e-08 + 1e-16 * abs(amount)
     return Num.lift(1e-08) + Num.lift(dsl.TOL) * absv(amount)
 
 
@@ -223,7 +227,9 @@ def verify_allocate(ex, contract, timeout_ms=30000):
         for p in st0.pc:
             s.add(p)
         fr.canary = str(s.check())
-        discharge(obligs, timeout_ms, fr, contract.qualname)
+        from pyvc.verify import make_realiser
+
+        discharge(obligs, timeout_ms, fr, contract.qualname, realise=make_realiser(ex, contract, st0, recv, args))
         fr.stats = dict(feas_queries=ex.stats.feas_queries, feas_s=round(ex.stats.feas_time, 3), inlined=sorted(ex.stats.inlined), contracts_used=sorted(ex.stats.contracts_used))
     except Undecided as e:
         fr.undecided = str(e)
@@ -232,3 +238,47 @@ def verify_allocate(ex, contract, timeout_ms=30000):
 
         fr.undecided = "ENGINE-ERROR: %s\n%s" % (e, traceback.format_exc())
     return fr
+
+
+def alloc_concrete_check(sc, bt, fields):
+    """replay of an allocate counter-model: run the real allocate, read off the traded quantity and
+    evaluate the C05 clauses (executable form of the contract) on the state after the catch-up update"""
+    from pyvc import concrete as cc
+
+    root, par, sec, dates = cc.build_tree(sc, bt)
+    root2, par2, sec2, _ = cc.build_tree(sc, bt)
+    amount = cc._f(sc["args"].get("amount"))
+    update = bool(sc["args"].get("update", True))
+    exc = None
+    try:
+        sec.allocate(amount, update)
+    except Exception as e:  # noqa: BLE001
+        exc = type(e).__name__
+    # twin: bring to the post-update state with the real update (under its own contract elsewhere)
+    exc2 = None
+    try:
+        if sec2._needupdate or sec2.now != sec2.parent.now:
+            sec2.update(sec2.parent.now)
+    except Exception as e:  # noqa: BLE001
+        exc2 = type(e).__name__
+    S = cc.ConcreteState()
+    out = dict(real_exception=exc, amount=amount, position_before=float(sec2._position), position_after=float(sec._position), price=float(sec2._price))
+    if exc2 is not None:
+        out["reproduced"] = exc is None
+        return out
+    import math
+
+    bad = (not is_zero(amount)) and (is_zero(sec2._price) or math.isnan(sec2._price))
+    if exc is not None:
+        out["reproduced"] = bool(is_zero(amount))
+        return out
+    if bad:
+        out["reproduced"] = True
+        out["failed_clauses"] = ["refuses-bad-price"]
+        return out
+    q = float(sec._position) - float(sec2._position)
+    cl = characterise(S, sec2, amount, q)
+    failed = [k for k, v in cl.items() if not bool(v)]
+    out.update(q=q, failed_clauses=failed, full_outlay_of_q=float(full_of(S, sec2, q)), full_outlay_of_q_plus_1=float(full_of(S, sec2, q + 1)))
+    out["reproduced"] = bool(failed)
+    return out
